@@ -155,7 +155,7 @@ Example C04_ex : U_add true 8 [255; 255; 255] [1; 0; 0] = Panic /\
   U_Shl_prim true 8 AI8 [1; 0; 0] (-1) = Panic /\ U_Shl_prim false 8 AI8 [1; 0; 0] (-1) = Ret [0; 0; 128].
 Proof. vm_compute. repeat split. Qed.
 (* ==== glue tie, round 2 (text written by tools/mk_gluetie.py; keep at the END of the file) ==== *)
-(* ---- tie to the source, second round: the non-loop functions (the operator trait impls of src/int/ops.rs (impls!), src/buint/ops.rs, src/bint/ops.rs that forward to the inherent methods: Add Sub Mul Div Rem Neg Not BitAnd BitOr BitXor Shl<ExpType> Shr<ExpType>, Div / Rem by a digit) REGENERATED from /repo/src on every run
+(* ---- tie to the source, second round: the non-loop functions (the operator trait impls of src/int/ops.rs (impls!), src/buint/ops.rs, src/bint/ops.rs that forward to the inherent methods: Add Sub Mul Div Rem Neg Not BitAnd BitOr BitXor, Div / Rem by a digit, Shl / Shr for the twelve primitive amount types (shift_impl!, try_shift_impl! expansions: widening cast, or u32::try_from + expect in debug builds and `as u32` otherwise)) REGENERATED from /repo/src on every run
    (Generated/Glue.v, tools/rs2v_glue.py) are the model's, function by function, for every digit width, digit count,
    build mode and operand (no well-formedness hypothesis): an edit of the source that changes what one of these
    functions computes or delegates to breaks this theorem ---- *)
@@ -191,6 +191,50 @@ Theorem C04_glue_rs_matches_model :
   (forall w a b, Glue.I_BitXor_bitxor w a b = bitxor a b) /\
   (forall dbg w a b, Glue.I_Div_div dbg w a b = I_div dbg w a b) /\
   (forall dbg w a b, Glue.I_Rem_rem dbg w a b = I_rem dbg w a b) /\
-  (forall w a, Glue.I_Not_not w a = bitnot w a).
+  (forall w a, Glue.I_Not_not w a = bitnot w a) /\
+  (forall dbg w a k, Glue.U_Shl_u8_shl dbg w a k = Ops.U_Shl_prim dbg w Ops.AU8 a k) /\
+  (forall dbg w a k, Glue.I_Shl_u8_shl dbg w a k = Ops.I_Shl_prim dbg w Ops.AU8 a k) /\
+  (forall dbg w a k, Glue.U_Shl_u16_shl dbg w a k = Ops.U_Shl_prim dbg w Ops.AU16 a k) /\
+  (forall dbg w a k, Glue.I_Shl_u16_shl dbg w a k = Ops.I_Shl_prim dbg w Ops.AU16 a k) /\
+  (forall dbg w a k, Glue.U_Shl_i8_shl dbg w a k = Ops.U_Shl_prim dbg w Ops.AI8 a k) /\
+  (forall dbg w a k, Glue.I_Shl_i8_shl dbg w a k = Ops.I_Shl_prim dbg w Ops.AI8 a k) /\
+  (forall dbg w a k, Glue.U_Shl_i16_shl dbg w a k = Ops.U_Shl_prim dbg w Ops.AI16 a k) /\
+  (forall dbg w a k, Glue.I_Shl_i16_shl dbg w a k = Ops.I_Shl_prim dbg w Ops.AI16 a k) /\
+  (forall dbg w a k, Glue.U_Shl_i32_shl dbg w a k = Ops.U_Shl_prim dbg w Ops.AI32 a k) /\
+  (forall dbg w a k, Glue.I_Shl_i32_shl dbg w a k = Ops.I_Shl_prim dbg w Ops.AI32 a k) /\
+  (forall dbg w a k, Glue.U_Shl_isize_shl dbg w a k = Ops.U_Shl_prim dbg w Ops.AIsize a k) /\
+  (forall dbg w a k, Glue.I_Shl_isize_shl dbg w a k = Ops.I_Shl_prim dbg w Ops.AIsize a k) /\
+  (forall dbg w a k, Glue.U_Shl_i64_shl dbg w a k = Ops.U_Shl_prim dbg w Ops.AI64 a k) /\
+  (forall dbg w a k, Glue.I_Shl_i64_shl dbg w a k = Ops.I_Shl_prim dbg w Ops.AI64 a k) /\
+  (forall dbg w a k, Glue.U_Shl_i128_shl dbg w a k = Ops.U_Shl_prim dbg w Ops.AI128 a k) /\
+  (forall dbg w a k, Glue.I_Shl_i128_shl dbg w a k = Ops.I_Shl_prim dbg w Ops.AI128 a k) /\
+  (forall dbg w a k, Glue.U_Shl_usize_shl dbg w a k = Ops.U_Shl_prim dbg w Ops.AUsize a k) /\
+  (forall dbg w a k, Glue.I_Shl_usize_shl dbg w a k = Ops.I_Shl_prim dbg w Ops.AUsize a k) /\
+  (forall dbg w a k, Glue.U_Shl_u64_shl dbg w a k = Ops.U_Shl_prim dbg w Ops.AU64 a k) /\
+  (forall dbg w a k, Glue.I_Shl_u64_shl dbg w a k = Ops.I_Shl_prim dbg w Ops.AU64 a k) /\
+  (forall dbg w a k, Glue.U_Shl_u128_shl dbg w a k = Ops.U_Shl_prim dbg w Ops.AU128 a k) /\
+  (forall dbg w a k, Glue.I_Shl_u128_shl dbg w a k = Ops.I_Shl_prim dbg w Ops.AU128 a k) /\
+  (forall dbg w a k, Glue.U_Shr_u8_shr dbg w a k = Ops.U_Shr_prim dbg w Ops.AU8 a k) /\
+  (forall dbg w a k, Glue.I_Shr_u8_shr dbg w a k = Ops.I_Shr_prim dbg w Ops.AU8 a k) /\
+  (forall dbg w a k, Glue.U_Shr_u16_shr dbg w a k = Ops.U_Shr_prim dbg w Ops.AU16 a k) /\
+  (forall dbg w a k, Glue.I_Shr_u16_shr dbg w a k = Ops.I_Shr_prim dbg w Ops.AU16 a k) /\
+  (forall dbg w a k, Glue.U_Shr_i8_shr dbg w a k = Ops.U_Shr_prim dbg w Ops.AI8 a k) /\
+  (forall dbg w a k, Glue.I_Shr_i8_shr dbg w a k = Ops.I_Shr_prim dbg w Ops.AI8 a k) /\
+  (forall dbg w a k, Glue.U_Shr_i16_shr dbg w a k = Ops.U_Shr_prim dbg w Ops.AI16 a k) /\
+  (forall dbg w a k, Glue.I_Shr_i16_shr dbg w a k = Ops.I_Shr_prim dbg w Ops.AI16 a k) /\
+  (forall dbg w a k, Glue.U_Shr_i32_shr dbg w a k = Ops.U_Shr_prim dbg w Ops.AI32 a k) /\
+  (forall dbg w a k, Glue.I_Shr_i32_shr dbg w a k = Ops.I_Shr_prim dbg w Ops.AI32 a k) /\
+  (forall dbg w a k, Glue.U_Shr_isize_shr dbg w a k = Ops.U_Shr_prim dbg w Ops.AIsize a k) /\
+  (forall dbg w a k, Glue.I_Shr_isize_shr dbg w a k = Ops.I_Shr_prim dbg w Ops.AIsize a k) /\
+  (forall dbg w a k, Glue.U_Shr_i64_shr dbg w a k = Ops.U_Shr_prim dbg w Ops.AI64 a k) /\
+  (forall dbg w a k, Glue.I_Shr_i64_shr dbg w a k = Ops.I_Shr_prim dbg w Ops.AI64 a k) /\
+  (forall dbg w a k, Glue.U_Shr_i128_shr dbg w a k = Ops.U_Shr_prim dbg w Ops.AI128 a k) /\
+  (forall dbg w a k, Glue.I_Shr_i128_shr dbg w a k = Ops.I_Shr_prim dbg w Ops.AI128 a k) /\
+  (forall dbg w a k, Glue.U_Shr_usize_shr dbg w a k = Ops.U_Shr_prim dbg w Ops.AUsize a k) /\
+  (forall dbg w a k, Glue.I_Shr_usize_shr dbg w a k = Ops.I_Shr_prim dbg w Ops.AUsize a k) /\
+  (forall dbg w a k, Glue.U_Shr_u64_shr dbg w a k = Ops.U_Shr_prim dbg w Ops.AU64 a k) /\
+  (forall dbg w a k, Glue.I_Shr_u64_shr dbg w a k = Ops.I_Shr_prim dbg w Ops.AU64 a k) /\
+  (forall dbg w a k, Glue.U_Shr_u128_shr dbg w a k = Ops.U_Shr_prim dbg w Ops.AU128 a k) /\
+  (forall dbg w a k, Glue.I_Shr_u128_shr dbg w a k = Ops.I_Shr_prim dbg w Ops.AU128 a k).
 Proof. exact glue_ops_matches_model. Qed.
 Print Assumptions C04_glue_rs_matches_model.
